@@ -24,15 +24,17 @@ func (r Result) String() string { return [...]string{"unsat", "sat", "unknown"}[
 
 // SolverStats are accumulated per worker and merged by the driver.
 type SolverStats struct {
-	Queries   int
-	Sat       int
-	Unsat     int
-	Unknown   int
-	Errors    int
-	Fallbacks int
-	Restarts  int
-	Time      time.Duration
-	ByBackend map[string]int
+	Queries       int
+	Sat           int
+	Unsat         int
+	Unknown       int
+	Errors        int
+	Fallbacks     int
+	Restarts      int
+	CrossChecked  int
+	CrossDisagree int
+	Time          time.Duration
+	ByBackend     map[string]int
 }
 
 func (s *SolverStats) add(o *SolverStats) {
@@ -40,6 +42,8 @@ func (s *SolverStats) add(o *SolverStats) {
 	s.Sat += o.Sat
 	s.Unsat += o.Unsat
 	s.Unknown += o.Unknown
+	s.CrossChecked += o.CrossChecked
+	s.CrossDisagree += o.CrossDisagree
 	s.Errors += o.Errors
 	s.Fallbacks += o.Fallbacks
 	s.Restarts += o.Restarts
@@ -343,6 +347,31 @@ func (s *Solver) Check(extra *Term, vars []*Term) (Result, map[string]uint64) {
 			}
 		}
 	}
+	if CrossCheck && res != Unknown {
+		// differential mode: ask the other back end the same question and count disagreements
+		used := plan[0].kind
+		for _, a := range plan {
+			if tried[a.kind] {
+				used = a.kind
+			}
+		}
+		other := s.Secondary
+		if other == used {
+			other = s.Primary
+		}
+		if other != "" {
+			if other != used {
+				r2, _ := s.incCheck(other, s.TimeoutMs, query, nil)
+				s.Stats.CrossChecked++
+				if r2 != Unknown && r2 != res {
+					s.Stats.CrossDisagree++
+					name := fmt.Sprintf("/tmp/gosmt_disagree_%d_%d.smt2", os.Getpid(), s.Stats.CrossDisagree)
+					os.WriteFile(name, []byte(s.log.String()+query), 0o644)
+					fmt.Fprintf(os.Stderr, "SOLVER-DISAGREEMENT %s=%v %s=%v dumped to %s\n", used, res, other, r2, name)
+				}
+			}
+		}
+	}
 	switch res {
 	case Sat:
 		s.Stats.Sat++
@@ -362,6 +391,9 @@ func (s *Solver) Check(extra *Term, vars []*Term) (Result, map[string]uint64) {
 
 // DebugSlow, when >0, dumps queries slower than this to /tmp.
 var DebugSlow time.Duration
+
+// CrossCheck makes every decided query be asked of the second back end too (GOSMT_CROSSCHECK=1).
+var CrossCheck bool
 
 func getValueCmd(vars []*Term) string {
 	if len(vars) == 0 {
